@@ -78,7 +78,9 @@ func Decode(b []byte) (principal.Signer, error) {
 		return nil, fmt.Errorf("decoding public bytes: %s", err)
 	}
 
-	return rsasigner{bytes: b, privKey: priv, verifier: verif}, nil
+	// keep a copy: the signer must not change when the caller reuses its buffer
+	// (the Ed25519 signer copies its input as well)
+	return rsasigner{bytes: append([]byte{}, b...), privKey: priv, verifier: verif}, nil
 }
 
 type rsasigner struct {
